@@ -107,10 +107,36 @@ Proof.
   - destruct (split_colon (c :: line)) as [[n v]|]; [|exact Hm]. apply add_valid. exact Hm.
 Qed.
 
+Lemma set_item_valid : forall n v h, is_token n = true -> is_field_value v = true ->
+  map_valid (as_list h) -> map_valid (as_list (set_item n v h)).
+Proof.
+  intros n v h Ht Hv Hm. apply d_set_Forall; [exact Hm|].
+  split; simpl; [apply normalize_token; exact Ht|constructor; [exact Hv|constructor]].
+Qed.
+Lemma get_item_store : forall n h, as_list (snd (get_item n h)) = as_list h.
+Proof.
+  intros n h. unfold get_item. destruct (d_get (normalize n) (cache h)); [reflexivity|].
+  destruct (d_get (normalize n) (as_list h)); reflexivity.
+Qed.
+Lemma items_go_store : forall ks acc h, as_list (snd (items_go ks acc h)) = as_list h.
+Proof.
+  induction ks as [|k ks IH]; intros acc h; [reflexivity|]. cbn [items_go].
+  pose proof (get_item_store k h) as E. destruct (get_item k h) as [r h1]. simpl in E.
+  destruct r; try exact E. rewrite IH. exact E.
+Qed.
+Lemma update_all_valid : forall l h, forallb pair_valid l = true -> map_valid (as_list h) ->
+  map_valid (as_list (update_all l h)).
+Proof.
+  induction l as [|[k v] l IH]; intros h Hl Hm; [exact Hm|].
+  simpl in Hl. apply andb_true_iff in Hl as [H1 H2]. unfold pair_valid in H1. simpl in H1.
+  apply andb_true_iff in H1 as [Ht Hv]. unfold update_all in *. cbn [fold_left fst snd].
+  apply IH; [exact H2|]. apply set_item_valid; assumption.
+Qed.
+
 Lemma step_valid : forall o h, valid_op o = true -> map_valid (as_list h) ->
   map_valid (as_list (snd (step o h))).
 Proof.
-  intros o h Ho Hm. destruct o as [n v|n v|n|n|n|n| | |l| ]; simpl; try exact Hm.
+  intros o h Ho Hm. destruct o as [n v|n v|n|n|n|n| | |l| |n|n|n v| | |l]; simpl; try exact Hm.
   - apply add_valid. exact Hm.
   - simpl in Ho. apply andb_true_iff in Ho as [Ht Hv]. apply d_set_Forall; [exact Hm|].
     split; simpl; [apply normalize_token; exact Ht|constructor; [exact Hv|constructor]].
@@ -119,6 +145,19 @@ Proof.
   - unfold get_item. destruct (d_get (normalize n) (cache h)); [exact Hm|].
     destruct (d_get (normalize n) (as_list h)); exact Hm.
   - apply parse_line_valid. exact Hm.
+  - unfold get_default. pose proof (get_item_store n h) as E. destruct (get_item n h) as [r h1].
+    simpl in *. rewrite E. exact Hm.
+  - unfold pop_item. pose proof (get_item_store n h) as E. destruct (get_item n h) as [r h1]. simpl in E.
+    destruct r; simpl; try (rewrite E; exact Hm).
+    unfold del_item. destruct (d_mem (normalize n) (as_list h1)); simpl; rewrite E; [|exact Hm].
+    apply d_del_Forall. exact Hm.
+  - simpl in Ho. apply andb_true_iff in Ho as [Ht Hv].
+    unfold set_default. pose proof (get_item_store n h) as E. destruct (get_item n h) as [r h1]. simpl in E.
+    assert (Hm1 : map_valid (as_list h1)) by (rewrite E; exact Hm).
+    destruct r as [|e| | | | | |]; simpl; try exact Hm1. destruct e; simpl; try exact Hm1.
+    apply set_item_valid; assumption.
+  - unfold items. rewrite items_go_store. exact Hm.
+  - simpl in Ho. apply update_all_valid; assumption.
 Qed.
 
 Lemma parse_lines_valid : forall ls h, map_valid (as_list h) -> map_valid (as_list (snd (parse_lines ls h))).
@@ -140,7 +179,7 @@ Qed.
 
 Lemma run_cmd_good : forall c st, valid_cmd c = true -> Forall good st -> Forall good (snd (run_cmd c st)).
 Proof.
-  intros c st Hc Hst. destruct c as [i o|i|t|i]; simpl.
+  intros c st Hc Hst. destruct c as [i o|i|t|i|l|i j]; simpl.
   - destruct (nth_error st i) as [h|] eqn:E; simpl; [|exact Hst].
     destruct (Forall_nth_error _ _ _ _ Hst E) as [Hi Hm].
     pose proof (proj2 (step_refines o h Hi)) as H1. pose proof (step_valid o h Hc Hm) as H2.
@@ -158,6 +197,20 @@ Proof.
     pose proof (parse_lines_valid (split_lines (to_string h)) empty_h (proj2 good_empty)) as H2.
     destruct (parse_lines (split_lines (to_string h)) empty_h) as [r h']. simpl in *.
     apply new_obj_good; [exact Hst|]. intros _. split; assumption.
+  - simpl in Hc. apply Forall_app. split; [exact Hst|]. constructor; [|constructor]. split.
+    + apply (update_all_refines l empty_h inv_empty).
+    + apply update_all_valid; [exact Hc|constructor].
+  - destruct (nth_error st i) as [hi|] eqn:Ei; [|exact Hst]. destruct (nth_error st j) as [hj|] eqn:Ej; [|exact Hst].
+    destruct (Forall_nth_error _ _ _ _ Hst Ei) as [Hi Hm].
+    assert (Hg : forall h, good h -> good (snd (items h))).
+    { intros h [Hih Hmh]. split; [apply (items_combined h Hih)|]. unfold items. rewrite items_go_store. exact Hmh. }
+    pose proof (Hg hi (conj Hi Hm)) as Gi. destruct (items hi) as [ri hi']. simpl in Gi.
+    assert (F1 : Forall good (upd i hi' st)) by (apply upd_Forall; assumption).
+    destruct ri; simpl; try exact F1.
+    destruct (nth_error (upd i hi' st) j) as [hj1|] eqn:Ej1; simpl; [|exact F1].
+    pose proof (Hg hj1 (Forall_nth_error _ _ _ _ F1 Ej1)) as Gj. destruct (items hj1) as [rj hj']. simpl in Gj.
+    assert (F2 : Forall good (upd j hj' (upd i hi' st))) by (apply upd_Forall; assumption).
+    destruct rj; simpl; exact F2.
 Qed.
 
 Lemma run_cmds_good : forall cs st, forallb valid_cmd cs = true -> Forall good st ->
@@ -184,6 +237,26 @@ Proof.
   - destruct (roundtrip_equal h Hi Hv) as [h' [E1 [E2 _]]]. eauto.
 Qed.
 
+(* ... and compares equal (the class's own ==, i.e. dict(items()) equality) to its copy and to its round trip *)
+Theorem reachable_equal_to_copy_and_roundtrip : forall cs h,
+  forallb valid_cmd cs = true -> In h (snd (run_cmds cs [empty_h])) ->
+  exists hc hp a, copy h = (RUnit, hc) /\ parse (to_string h) = (RUnit, hp) /\
+    fst (items h) = RPairs a /\ fst (items hc) = RPairs a /\ fst (items hp) = RPairs a /\
+    dict_eqb a a = true.
+Proof.
+  intros cs h Hc Hin.
+  assert (Hg : Forall good (snd (run_cmds cs [empty_h]))).
+  { apply run_cmds_good; [exact Hc|constructor; [exact good_empty|constructor]]. }
+  rewrite Forall_forall in Hg. destruct (Hg h Hin) as [Hi Hm].
+  pose proof (map_valid_pairs _ Hm) as Hv.
+  destruct (copy_equal h Hi Hv) as [hc [C1 [C2 C3]]].
+  destruct (roundtrip_equal h Hi Hv) as [hp [P1 [P2 P3]]].
+  destruct (same_store_compare_equal h hc Hi C3 C2) as [a [A1 [A2 A3]]].
+  destruct (same_store_compare_equal h hp Hi P3 P2) as [a' [B1 [B2 _]]].
+  rewrite A1 in B1. inversion B1; subst a'.
+  exists hc, hp, a. auto 10.
+Qed.
+
 (* ---------- the checker accepts the model on every program ---------- *)
 Lemma copies_ok_model : forall cs st, forallb valid_cmd cs = true -> Forall good st ->
   copies_ok cs (map obs_res (fst (run_cmds cs st))) = true.
@@ -192,7 +265,7 @@ Proof.
   simpl in Hc. apply andb_true_iff in Hc as [Hc1 Hc2].
   pose proof (run_cmd_good c st Hc1 Hst) as Hg. cbn [run_cmds].
   assert (Hr : match c with Copy _ | Reparse _ => fst (run_cmd c st) = RUnit \/ fst (run_cmd c st) = RBadTarget | _ => True end).
-  { destruct c as [i o|i|t|i]; auto; simpl.
+  { destruct c as [i o|i|t|i|l|i j]; auto; simpl.
     - destruct (nth_error st i) as [h|] eqn:E; simpl; auto.
       destruct (Forall_nth_error _ _ _ _ Hst E) as [Hi Hm].
       destruct (copy_equal h Hi (map_valid_pairs _ Hm)) as [h' [E1 _]]. rewrite E1. simpl. auto.
